@@ -182,6 +182,13 @@ def world_to_comm_rank(comm: Comm, world_rank: int) -> int:
     return comm.bcast(comm_rank, root=world_rank)
 
 
+class WorkerError:
+    """Transports an exception raised by a job on a worker rank to the root."""
+
+    def __init__(self, error: Exception) -> None:
+        self.error = error
+
+
 class EndOfQueue:
     pass
 
@@ -233,15 +240,24 @@ def _mpi_root_task(
             comm.send(EndOfQueue, dest=rank, tag=1)
 
     # yield results from workers and send new tasks until all have been processed
+    error = None
     while active_workers > 0:
         rank, result = comm.recv(source=MPI.ANY_SOURCE, tag=2)
-        yield result
+        if isinstance(result, WorkerError):
+            error = error or result.error  # stop handing out tasks, drain workers
+        if error is None:
+            yield result
 
         try:
+            if error is not None:
+                raise StopIteration
             comm.send(next(iterable), dest=rank, tag=1)
         except StopIteration:
             comm.send(EndOfQueue, dest=rank, tag=1)
             active_workers -= 1
+
+    if error is not None:
+        raise error
 
 
 def _mpi_worker_task(func: ParallelJob, comm: Comm = COMM) -> None:
@@ -249,7 +265,10 @@ def _mpi_worker_task(func: ParallelJob, comm: Comm = COMM) -> None:
     call results to the root rank."""
     rank = comm.Get_rank()
     while (arg := comm.recv(source=0, tag=1)) is not EndOfQueue:
-        result = func(arg)
+        try:
+            result = func(arg)
+        except Exception as err:
+            result = WorkerError(err)  # raised on all ranks once workers are idle
         comm.send((rank, result), dest=0, tag=2)
 
 
@@ -273,15 +292,23 @@ def _mpi_iter_unordered(
     as a single tuple or unpacked.
     """
     wrapped_func = ParallelJob(func, func_args, func_kwargs, unpack=unpack)
+    error = None
     if on_root():
-        iterable = iter(iterable)
-        yield from _mpi_root_task(iterable, ranks, comm=comm)
-        # without any worker rank (e.g. max_workers=1) no job has been processed
-        yield from map(wrapped_func, iterable)
+        try:
+            iterable = iter(iterable)
+            yield from _mpi_root_task(iterable, ranks, comm=comm)
+            # without any worker rank (e.g. max_workers=1) no job has been processed
+            yield from map(wrapped_func, iterable)
+        except Exception as err:
+            error = err
 
     else:
         _mpi_worker_task(wrapped_func, comm=comm)
 
+    # an error in a job ends the iteration on every rank, not only where it occured
+    error = comm.bcast(error, root=0)
+    if error is not None:
+        raise error
     comm.Barrier()
 
 
